@@ -491,7 +491,7 @@ func (t *genTable[Obj]) Insert(txn WriteTxn, obj Obj) (oldObj Obj, hadOld bool, 
 
 func (t *genTable[Obj]) InsertWatch(txn WriteTxn, obj Obj) (oldObj Obj, hadOld bool, watch <-chan struct{}, err error) {
 	var old object
-	old, hadOld, watch, err = txn.unwrap().insert(t, Revision(0), obj)
+	old, hadOld, watch, err = txn.unwrap().insert(t, noGuardRevision, obj)
 	if hadOld {
 		oldObj = old.data.(Obj)
 	}
@@ -504,7 +504,7 @@ func (t *genTable[Obj]) Modify(txn WriteTxn, obj Obj, merge func(old, new Obj) O
 		return new
 	}
 	var old object
-	old, hadOld, _, err = txn.unwrap().modify(t, Revision(0), obj, mergeObjects)
+	old, hadOld, _, err = txn.unwrap().modify(t, noGuardRevision, obj, mergeObjects)
 	if hadOld {
 		oldObj = old.data.(Obj)
 	}
@@ -522,7 +522,7 @@ func (t *genTable[Obj]) CompareAndSwap(txn WriteTxn, rev Revision, obj Obj) (old
 
 func (t *genTable[Obj]) Delete(txn WriteTxn, obj Obj) (oldObj Obj, hadOld bool, err error) {
 	var old object
-	old, hadOld, err = txn.unwrap().delete(t, Revision(0), obj)
+	old, hadOld, err = txn.unwrap().delete(t, noGuardRevision, obj)
 	if hadOld {
 		oldObj = old.data.(Obj)
 	}
@@ -541,7 +541,7 @@ func (t *genTable[Obj]) CompareAndDelete(txn WriteTxn, rev Revision, obj Obj) (o
 func (t *genTable[Obj]) DeleteAll(txn WriteTxn) error {
 	itxn := txn.unwrap()
 	for obj := range t.All(txn) {
-		_, _, err := itxn.delete(t, Revision(0), obj)
+		_, _, err := itxn.delete(t, noGuardRevision, obj)
 		if err != nil {
 			return err
 		}
